@@ -14,11 +14,20 @@ package main
 //   p            the pong that answers the ping P<r> that names this position (udp: RST with the ping's message ID;
 //                tcp: 7.03 with the ping's token, consumed by the socket reader: not a queue message)
 //   d<i>         (udp) a retransmitted copy of request item i (the same datagram again)
+//   n            the registration response to the observation S<r> that names this position
 //   s            a stray response
-// Programs (after ':'), executed by the application handler on the reader-loop goroutine that dispatched the request:
+//   o[<j>] / O[<j>]  a notification (NON / udp: CON) of observation j (default 1), sequence numbers increasing; the observe
+//                callback of the connection (net/observation: Handler.Handle -> Observation.handle -> observeFunc, on the
+//                reader loop that dispatched the notification) executes the item's program. The observations are
+//                registered before the first item (a user goroutine calls Conn.DoObserve; its registration response,
+//                sequence number 1, is handed over by the harness and is not an item). d<i> may repeat a notification.
+// Programs (after ':'), executed by the application handler / the observe callback on the reader-loop goroutine that
+// dispatched the request / the notification:
 //   N<r>  blocking nested request (udp: NON GET), response = item r        Nx / Cx / Px: the reply never comes
 //   C<r>  (udp) blocking CONFIRMABLE nested request, piggybacked response = item r
 //   P<r>  Conn.Ping, pong = item r
+//   S<r>  Conn.DoObserve (the handler registers an observation of its own: blocks until the registration response has
+//         been dispatched), registration response = item r, kind n (2.05 with an Observe option; udp: NON request)
 // "@<d>" after a request kind (udp) places the peer's message ID d above the connection's own counter as it stood
 // when the connection was created (mod 2^16; "c=<counter>" in the prefix sets that counter): @1 is the next ID the
 // connection draws. Without it the peer's IDs are own+0x5000+position.
@@ -26,7 +35,10 @@ package main
 // After every item the harness waits for state-change witnesses that its effects have settled (dispatch logged,
 // request / ping of the next operation written, blocking call returned, handler finished and its dispatch returned)
 // before it hands over the next one. A wait ends early as a stall when the connection is provably quiescent (see
-// c11XQuiescent) although the awaited effect has not happened; otherwise it is under the watchdog of c11.go.
+// c11XQuiescent) although the awaited effect has not happened; otherwise it is under the watchdog of c11.go. After a
+// stall the remaining items are still handed to the connection (without waiting for effects that cannot come any more)
+// and the run ends when the connection is quiescent again: what a stuck connection was given and never dispatched is
+// part of the observation.
 //
 // Descriptor: "X:l=<T|D>,n=<queue size>[,c=<own counter>]|<item> <item> ...", item =
 // <position><kind>[<ref>][@<d>][:<ops>]; the position prefix is for the reader only.
@@ -57,13 +69,13 @@ import (
 // ---------- scripts ----------
 
 type c11XOp struct {
-	kind byte // 'N', 'C', 'P'
+	kind byte // 'N', 'C', 'P', 'S'
 	r    int  // 0 = the reply never comes
 }
 
 type c11XItem struct {
-	kind   byte // q Q r a p d s
-	ref    int  // d: the request item that is repeated
+	kind   byte // q Q r a p d s o O
+	ref    int  // d: the request item that is repeated; o O: the observation
 	off    int  // @d
 	hasOff bool
 	ops    []c11XOp
@@ -81,7 +93,7 @@ func (sp c11XSpec) desc() string {
 	for i, it := range sp.items {
 		var sb strings.Builder
 		fmt.Fprintf(&sb, "%d%c", i+1, it.kind)
-		if it.kind == 'd' {
+		if it.kind == 'd' || ((it.kind == 'o' || it.kind == 'O') && it.ref != 1) {
 			fmt.Fprintf(&sb, "%d", it.ref)
 		}
 		if it.hasOff {
@@ -122,7 +134,7 @@ func parseC11XItems(s string) ([]c11XItem, error) {
 	var items []c11XItem
 	for _, f := range strings.Fields(s) {
 		_, p := c11XNum(f, 0)
-		if p >= len(f) || !strings.ContainsRune("qQrapds", rune(f[p])) {
+		if p >= len(f) || !strings.ContainsRune("qQrapdsoOn", rune(f[p])) {
 			return nil, fmt.Errorf("bad item %q", f)
 		}
 		it := c11XItem{kind: f[p]}
@@ -130,6 +142,15 @@ func parseC11XItems(s string) ([]c11XItem, error) {
 		if it.kind == 'd' {
 			it.ref, p = c11XNum(f, p)
 			if it.ref <= 0 {
+				return nil, fmt.Errorf("bad item %q", f)
+			}
+		}
+		if it.kind == 'o' || it.kind == 'O' {
+			it.ref = 1
+			if v, q := c11XNum(f, p); v > 0 {
+				it.ref, p = v, q
+			}
+			if it.ref > 8 {
 				return nil, fmt.Errorf("bad item %q", f)
 			}
 		}
@@ -146,7 +167,7 @@ func parseC11XItems(s string) ([]c11XItem, error) {
 			}
 			p++
 			for p < len(f) {
-				if !strings.ContainsRune("NCP", rune(f[p])) {
+				if !strings.ContainsRune("NCPS", rune(f[p])) {
 					return nil, fmt.Errorf("bad program in %q", f)
 				}
 				op := c11XOp{kind: f[p]}
@@ -220,19 +241,20 @@ func mustC11X(layer byte, n, ctr int, script string) c11XSpec {
 func (sp c11XSpec) plan() (map[int][2]int, error) {
 	respOf := map[int][2]int{}
 	k := len(sp.items)
-	want := map[byte]byte{'N': 'r', 'C': 'a', 'P': 'p'}
+	want := map[byte]byte{'N': 'r', 'C': 'a', 'P': 'p', 'S': 'n'}
 	for i, it := range sp.items {
 		m := i + 1
 		isReq := it.kind == 'q' || it.kind == 'Q'
-		if !isReq && (len(it.ops) > 0 || it.hasOff) {
-			return nil, fmt.Errorf("item %d: only requests have a program / a placed message ID", m)
+		isNotif := it.kind == 'o' || it.kind == 'O'
+		if (!isReq && !isNotif && len(it.ops) > 0) || (!isReq && it.hasOff) {
+			return nil, fmt.Errorf("item %d: only requests and notifications have a program, only requests a placed message ID", m)
 		}
-		if sp.layer == 'T' && (it.kind == 'a' || it.kind == 'd' || it.kind == 'Q' || it.hasOff) {
+		if sp.layer == 'T' && (it.kind == 'a' || it.kind == 'd' || it.kind == 'Q' || it.kind == 'O' || it.hasOff) {
 			return nil, fmt.Errorf("item %d: kind not available on tcp", m)
 		}
 		if it.kind == 'd' {
-			if it.ref >= m || (sp.items[it.ref-1].kind != 'q' && sp.items[it.ref-1].kind != 'Q') {
-				return nil, fmt.Errorf("item %d: d%d does not repeat an earlier request", m, it.ref)
+			if it.ref >= m || !strings.ContainsRune("qQoO", rune(sp.items[it.ref-1].kind)) {
+				return nil, fmt.Errorf("item %d: d%d does not repeat an earlier request / notification", m, it.ref)
 			}
 		}
 		prev := m
@@ -257,13 +279,62 @@ func (sp c11XSpec) plan() (map[int][2]int, error) {
 		}
 	}
 	for i, it := range sp.items {
-		if it.kind == 'r' || it.kind == 'a' || it.kind == 'p' {
+		if it.kind == 'r' || it.kind == 'a' || it.kind == 'p' || it.kind == 'n' {
 			if _, ok := respOf[i+1]; !ok {
 				return nil, fmt.Errorf("item %d: reply to no operation", i+1)
 			}
 		}
 	}
 	return respOf, nil
+}
+
+// nObs: number of observations the script uses; seqOf: the sequence number of notification item i (2, 3, ... per observation)
+func (sp c11XSpec) nObs() int {
+	n := 0
+	for _, it := range sp.items {
+		if (it.kind == 'o' || it.kind == 'O') && it.ref > n {
+			n = it.ref
+		}
+	}
+	return n
+}
+
+func (sp c11XSpec) seqOf(i int) int {
+	seq := 1
+	for x := 1; x <= i; x++ {
+		if it := sp.items[x-1]; (it.kind == 'o' || it.kind == 'O') && it.ref == sp.items[i-1].ref {
+			seq++
+		}
+	}
+	return seq
+}
+
+func c11ObsToken(j int) []byte { return []byte{0x0B, 0x5E, byte(j), 0x77, 0x0B} }
+
+// c11ObsOf: the observation a token belongs to (0 = none)
+func c11ObsOf(tok []byte) int {
+	if len(tok) == 5 && tok[0] == 0x0B && tok[1] == 0x5E && tok[3] == 0x77 && tok[4] == 0x0B {
+		return int(tok[2])
+	}
+	return 0
+}
+
+func c11TCPFrameOpts(code codes.Code, tok []byte, opts message.Options, payload []byte) []byte {
+	m := message.Message{Code: code, Token: tok, Options: opts, Payload: payload}
+	size, err := tcpcoder.DefaultCoder.Size(m)
+	if err != nil {
+		panic(err)
+	}
+	buf := make([]byte, size)
+	n, err := tcpcoder.DefaultCoder.Encode(m, buf)
+	if err != nil {
+		panic(err)
+	}
+	return buf[:n]
+}
+
+func c11ObserveOpt(seq int) message.Options {
+	return message.Options{{ID: message.Observe, Value: []byte{byte(seq)}}}
 }
 
 func (sp c11XSpec) isQueueMsg(i int) bool { // item i (1-based) goes through the receive queue
@@ -324,7 +395,9 @@ type c11XState struct {
 	ran     map[int]bool
 	barrier int
 	active  int
-	refused bool // an operation was refused at once (not a stall): the script is outside the family
+	setup   int          // registration responses of observations whose dispatch has returned
+	obsOK   map[int]bool // DoObserve of observation j has returned
+	refused bool         // an operation was refused at once (not a stall): the script is outside the family
 	errs    []string
 }
 
@@ -365,7 +438,7 @@ func runC11X(sp c11XSpec) (string, bool) {
 	}
 	dbg := os.Getenv("HXDBG") != ""
 	k := len(sp.items)
-	st := &c11XState{note: make(chan struct{}, 1), post: map[int]int{}, started: map[[2]int]bool{}, ret: map[[2]int]bool{}, done: map[int]bool{}, ran: map[int]bool{}}
+	st := &c11XState{note: make(chan struct{}, 1), post: map[int]int{}, started: map[[2]int]bool{}, ret: map[[2]int]bool{}, done: map[int]bool{}, ran: map[int]bool{}, obsOK: map[int]bool{}}
 	ctx, cancel := context.WithCancel(context.Background())
 
 	// identification of what the connection dispatches: key -> items (in arrival order) that carry it
@@ -396,8 +469,14 @@ func runC11X(sp c11XSpec) (string, bool) {
 		return owner[key]
 	}
 	const barKey = "barrier"
+	const setKey = "setup" // the registration response of an observation: not an item
 
 	dispatched := func(key string, isSig bool, run func()) {
+		if key == setKey {
+			run()
+			st.bump(func() { st.setup++ })
+			return
+		}
 		i := 0
 		if key != barKey {
 			i = takeID(key) // 0 = something the harness did not send
@@ -501,6 +580,26 @@ func runC11X(sp c11XSpec) (string, bool) {
 		pingWaiting = pingWaiting[1:]
 		opWire[mj] = c11XWire{mid: mid, tok: append([]byte(nil), tok...)}
 	}
+	obsReq := map[int]bool{} // the registration request of observation j has been written
+	sawObs := func(tok []byte) {
+		if j := c11ObsOf(tok); j > 0 {
+			wireMu.Lock()
+			obsReq[j] = true
+			wireMu.Unlock()
+		}
+	}
+	obsReqSeen := func(j int) bool {
+		wireMu.Lock()
+		defer wireMu.Unlock()
+		return obsReq[j]
+	}
+	var observe func(j int) error // Conn.DoObserve for observation j (blocks until the registration response is dispatched)
+	var regResp func(j int) []byte
+	type sentItem struct {
+		data []byte
+		key  string
+	}
+	sent := map[int]sentItem{}
 	getWire := func(mj [2]int) (c11XWire, bool) {
 		wireMu.Lock()
 		defer wireMu.Unlock()
@@ -521,6 +620,11 @@ func runC11X(sp c11XSpec) (string, bool) {
 			if string(req.Token()) == string(c11BarrierToken) {
 				kk = barKey
 			}
+			if c11ObsOf(req.Token()) > 0 {
+				if seq, errO := req.Observe(); errO == nil && seq == 1 {
+					kk = setKey
+				}
+			}
 			dispatched(kk, false, func() { cc.ProcessReceivedMessageWithHandler(req, handler) })
 		})
 		getMID := int32(0x2000)
@@ -530,33 +634,57 @@ func runC11X(sp c11XSpec) (string, bool) {
 		mc := newMemConn(memConnOpts{getMID: getMID, queueSize: sp.n, nstart: 64, limitTotal: 64, limitEndpoint: 64, maxRetransmit: 4, processReceived: hook})
 		own0 := int(uint16(mc.cc.VerifMsgID()))
 		ownCtr = mc.cc.VerifMsgID
+		doOp := func(m, j int, op c11XOp) error {
+			noteStarted(m, j, op)
+			if op.kind == 'P' {
+				return mc.cc.Ping(ctx)
+			}
+			tok := c11NestToken(m, j)
+			req := mc.cc.AcquireMessage(ctx)
+			defer mc.cc.ReleaseMessage(req)
+			req.SetCode(codes.GET)
+			req.SetType(message.NonConfirmable)
+			if op.kind == 'C' {
+				req.SetType(message.Confirmable)
+			}
+			req.SetToken(tok)
+			_ = req.SetPath("/nested")
+			if op.kind == 'S' {
+				req.SetObserve(0)
+				_, err := mc.cc.DoObserve(req, func(*pool.Message) {})
+				return err
+			}
+			resp, err := mc.cc.Do(req)
+			if err != nil {
+				return err
+			}
+			defer mc.cc.ReleaseMessage(resp)
+			if resp.Code() != codes.Content || string(resp.Token()) != string(tok) {
+				return fmt.Errorf("wrong response")
+			}
+			return nil
+		}
 		mc.behave = func(_ *responsewriter.ResponseWriter[*client.Conn], r *pool.Message) {
-			kk := key(int(r.Type()), int(r.MessageID()), r.Token())
-			handle(kk, func(m, j int, op c11XOp) error {
-				noteStarted(m, j, op)
-				if op.kind == 'P' {
-					return mc.cc.Ping(ctx)
+			handle(key(int(r.Type()), int(r.MessageID()), r.Token()), doOp)
+		}
+		observe = func(j int) error {
+			req := mc.cc.AcquireMessage(ctx)
+			defer mc.cc.ReleaseMessage(req)
+			req.SetCode(codes.GET)
+			req.SetType(message.NonConfirmable)
+			req.SetToken(c11ObsToken(j))
+			req.SetObserve(0)
+			_ = req.SetPath("/obs")
+			_, err := mc.cc.DoObserve(req, func(n *pool.Message) {
+				if seq, errO := n.Observe(); errO != nil || seq == 1 {
+					return
 				}
-				tok := c11NestToken(m, j)
-				req := mc.cc.AcquireMessage(ctx)
-				defer mc.cc.ReleaseMessage(req)
-				req.SetCode(codes.GET)
-				req.SetType(message.NonConfirmable)
-				if op.kind == 'C' {
-					req.SetType(message.Confirmable)
-				}
-				req.SetToken(tok)
-				_ = req.SetPath("/nested")
-				resp, err := mc.cc.Do(req)
-				if err != nil {
-					return err
-				}
-				defer mc.cc.ReleaseMessage(resp)
-				if resp.Code() != codes.Content || string(resp.Token()) != string(tok) {
-					return fmt.Errorf("wrong response")
-				}
-				return nil
+				handle(key(int(n.Type()), int(n.MessageID()), n.Token()), doOp)
 			})
+			return err
+		}
+		regResp = func(j int) []byte {
+			return encodeWire(int(message.NonConfirmable), int(codes.Content), (own0+0x4e00+j)&0xffff, c11ObsToken(j), c11ObserveOpt(1), []byte("reg"))
 		}
 		for i := 1; i <= k; i++ {
 			it := sp.items[i-1]
@@ -577,12 +705,22 @@ func runC11X(sp c11XSpec) (string, bool) {
 				return encodeWire(typs[i], int(codes.GET), mids[i], tok, nil, nil), key(typs[i], mids[i], tok), true
 			case 'd':
 				typs[i], mids[i] = typs[it.ref], mids[it.ref]
+				if rk := sp.items[it.ref-1].kind; rk == 'o' || rk == 'O' {
+					return sent[it.ref].data, sent[it.ref].key, true // the same datagram again
+				}
 				tok := c11ReqToken(it.ref)
 				return encodeWire(typs[i], int(codes.GET), mids[i], tok, nil, nil), key(typs[i], mids[i], tok), true
 			case 's':
 				typs[i] = int(message.NonConfirmable)
 				tok := []byte{0x57, 0x7A, byte(i)}
 				return encodeWire(typs[i], int(codes.Content), mids[i], tok, nil, []byte("stray")), key(typs[i], mids[i], tok), true
+			case 'o', 'O':
+				typs[i] = int(message.NonConfirmable)
+				if it.kind == 'O' {
+					typs[i] = int(message.Confirmable)
+				}
+				tok := c11ObsToken(it.ref)
+				return encodeWire(typs[i], int(codes.Content), mids[i], tok, c11ObserveOpt(sp.seqOf(i)), []byte("notification")), key(typs[i], mids[i], tok), true
 			}
 			mj := respOf[i]
 			w, ok := getWire(mj)
@@ -593,6 +731,9 @@ func runC11X(sp c11XSpec) (string, bool) {
 			case 'r':
 				typs[i] = int(message.NonConfirmable)
 				return encodeWire(typs[i], int(codes.Content), mids[i], w.tok, nil, []byte("ok")), key(typs[i], mids[i], w.tok), true
+			case 'n':
+				typs[i] = int(message.NonConfirmable)
+				return encodeWire(typs[i], int(codes.Content), mids[i], w.tok, c11ObserveOpt(7), []byte("ok")), key(typs[i], mids[i], w.tok), true
 			case 'a':
 				typs[i], mids[i] = int(message.Acknowledgement), w.mid
 				return encodeWire(typs[i], int(codes.Content), mids[i], w.tok, nil, []byte("ok")), key(typs[i], mids[i], w.tok), true
@@ -644,6 +785,7 @@ func runC11X(sp c11XSpec) (string, bool) {
 				case w.Bad:
 				case w.Code == int(codes.GET):
 					sawNested(w.Tok, w.MID)
+					sawObs(w.Tok)
 				case w.Code == int(codes.Empty) && w.Typ == int(message.Confirmable):
 					sawPing(nil, w.MID)
 				}
@@ -676,35 +818,69 @@ func runC11X(sp c11XSpec) (string, bool) {
 			}
 			return fmt.Sprintf("%x", tok)
 		}
+		// a notification is identified by its token and its sequence number
+		keyN := func(r *pool.Message) string {
+			if c11ObsOf(r.Token()) > 0 {
+				if seq, errO := r.Observe(); errO == nil {
+					if seq == 1 {
+						return setKey
+					}
+					return fmt.Sprintf("%x/%d", []byte(r.Token()), seq)
+				}
+			}
+			return keyT(r.Token())
+		}
+		doOp := func(m, j int, op c11XOp) error {
+			noteStarted(m, j, op)
+			if op.kind == 'P' {
+				return cc.Ping(ctx)
+			}
+			tok := c11NestToken(m, j)
+			req := cc.AcquireMessage(ctx)
+			defer cc.ReleaseMessage(req)
+			req.SetCode(codes.GET)
+			req.SetToken(tok)
+			_ = req.SetPath("/nested")
+			if op.kind == 'S' {
+				req.SetObserve(0)
+				_, err := cc.DoObserve(req, func(*pool.Message) {})
+				return err
+			}
+			resp, err := cc.Do(req)
+			if err != nil {
+				return err
+			}
+			defer cc.ReleaseMessage(resp)
+			if resp.Code() != codes.Content || string(resp.Token()) != string(tok) {
+				return fmt.Errorf("wrong response")
+			}
+			return nil
+		}
 		cfg.Handler = func(_ *responsewriter.ResponseWriter[*tcpclient.Conn], r *pool.Message) {
-			handle(keyT(r.Token()), func(m, j int, op c11XOp) error {
-				noteStarted(m, j, op)
-				if op.kind == 'P' {
-					return cc.Ping(ctx)
+			handle(keyT(r.Token()), doOp)
+		}
+		observe = func(j int) error {
+			req := cc.AcquireMessage(ctx)
+			defer cc.ReleaseMessage(req)
+			req.SetCode(codes.GET)
+			req.SetToken(c11ObsToken(j))
+			req.SetObserve(0)
+			_ = req.SetPath("/obs")
+			_, err := cc.DoObserve(req, func(n *pool.Message) {
+				if kk := keyN(n); kk != setKey {
+					handle(kk, doOp)
 				}
-				tok := c11NestToken(m, j)
-				req := cc.AcquireMessage(ctx)
-				defer cc.ReleaseMessage(req)
-				req.SetCode(codes.GET)
-				req.SetToken(tok)
-				_ = req.SetPath("/nested")
-				resp, err := cc.Do(req)
-				if err != nil {
-					return err
-				}
-				defer cc.ReleaseMessage(resp)
-				if resp.Code() != codes.Content || string(resp.Token()) != string(tok) {
-					return fmt.Errorf("wrong response")
-				}
-				return nil
 			})
+			return err
+		}
+		regResp = func(j int) []byte {
+			return c11TCPFrameOpts(codes.Content, c11ObsToken(j), c11ObserveOpt(1), []byte("reg"))
 		}
 		cc = tcpclient.NewConnWithOpts(coapNet.NewConn(stream), &cfg)
 		v := reflect.ValueOf(cc).Elem()
 		pf := (*func(*pool.Message, *tcpclient.Conn, tcpclient.HandlerFunc))(unsafe.Pointer(v.FieldByName("processReceivedMessage").UnsafeAddr()))
 		*pf = func(req *pool.Message, c *tcpclient.Conn, h tcpclient.HandlerFunc) {
-			tok := append([]byte(nil), req.Token()...)
-			dispatched(keyT(tok), req.Code() == codes.Pong, func() { c.ProcessReceivedMessageWithHandler(req, h) })
+			dispatched(keyN(req), req.Code() == codes.Pong, func() { c.ProcessReceivedMessageWithHandler(req, h) })
 		}
 		runDone := make(chan struct{})
 		go func() { _ = cc.Run(); close(runDone) }()
@@ -718,6 +894,10 @@ func runC11X(sp c11XSpec) (string, bool) {
 			case 's':
 				tok := []byte{0x57, 0x7A, byte(i)}
 				return c11TCPFrame(codes.Content, tok, []byte("stray")), keyT(tok), true
+			case 'o':
+				tok := c11ObsToken(it.ref)
+				seq := sp.seqOf(i)
+				return c11TCPFrameOpts(codes.Content, tok, c11ObserveOpt(seq), []byte("notification")), fmt.Sprintf("%x/%d", tok, seq), true
 			}
 			w, ok := getWire(respOf[i])
 			if !ok {
@@ -725,6 +905,9 @@ func runC11X(sp c11XSpec) (string, bool) {
 			}
 			if it.kind == 'r' {
 				return c11TCPFrame(codes.Content, w.tok, []byte("ok")), keyT(w.tok), true
+			}
+			if it.kind == 'n' {
+				return c11TCPFrameOpts(codes.Content, w.tok, c11ObserveOpt(7), []byte("ok")), keyT(w.tok), true
 			}
 			return c11TCPFrame(codes.Pong, w.tok, nil), keyT(w.tok), true
 		}
@@ -748,6 +931,7 @@ func runC11X(sp c11XSpec) (string, bool) {
 				switch m.Code {
 				case codes.GET:
 					sawNested(m.Token, 0)
+					sawObs(m.Token)
 				case codes.Ping:
 					sawPing(m.Token, 0)
 				}
@@ -858,19 +1042,63 @@ func runC11X(sp c11XSpec) (string, bool) {
 	var midRecs []string
 	injected := 0
 	hang := false
-	for i := 1; i <= k && !hang; i++ {
+	// the observations: a user goroutine registers each (DoObserve blocks until the registration response, handed
+	// over here, has been dispatched); the script starts when the registrations are complete
+	for j := 1; j <= sp.nObs() && !hang; j++ {
+		go func(j int) {
+			if err := observe(j); err != nil {
+				st.errf("DoObserve %d: %v", j, err)
+				return
+			}
+			st.bump(func() { st.obsOK[j] = true })
+		}(j)
+		hang = !wait(fmt.Sprintf("registration request of observation %d written", j), func() bool { return obsReqSeen(j) })
+		if !hang {
+			send(0, regResp(j))
+			hang = !wait(fmt.Sprintf("observation %d registered", j), func() bool { return st.obsOK[j] && st.setup >= j })
+		}
+	}
+	// settled: every dispatch that has begun has returned, or is held up for good by a handler that is executing its
+	// program (the handler's own dispatch; a copy of its request waiting for the message-ID lock). What is left is
+	// transient (the tail of a dispatch after its handler returned, a copy let go by a handler that has just finished):
+	// the next item waits for it, so that "one item at a time" also holds for the connection's message-ID counter.
+	settled := func() bool {
+		for _, i := range st.log {
+			if i <= 0 || i > k || st.post[i] > 0 {
+				continue
+			}
+			m := i
+			if sp.items[i-1].kind == 'd' {
+				m = sp.items[i-1].ref
+			}
+			if !(st.ran[m] && !st.done[m]) {
+				return false
+			}
+		}
+		return true
+	}
+	stalled := false
+	for i := 1; i <= k && (!hang || stalled); i++ {
 		it := sp.items[i-1]
 		data, kk, ok := build(i)
 		if !ok {
 			hang = true
 			break
 		}
+		if !stalled && !wait(fmt.Sprintf("connection settled before item %d", i), settled) {
+			hang, stalled = true, true
+		}
 		before := ownCtr()
 		addID(kk, i)
+		sent[i] = sentItem{data, kk}
 		send(i, data)
 		injected = i
+		if stalled {
+			// the connection is stuck: the rest of the script is handed over without waiting for effects
+			continue
+		}
 		switch it.kind {
-		case 'q', 'Q', 's':
+		case 'q', 'Q', 's', 'o', 'O':
 			hang = !wait(fmt.Sprintf("dispatch of %d and its handler's first step", i), func() bool {
 				if !logged(i) {
 					return false
@@ -887,7 +1115,7 @@ func runC11X(sp c11XSpec) (string, bool) {
 			}
 		case 'd':
 			hang = !wait(fmt.Sprintf("dispatch of the copy %d", i), func() bool { return logged(i) })
-		case 'r', 'a', 'p':
+		case 'r', 'a', 'p', 'n':
 			mj := respOf[i]
 			hang = !wait(fmt.Sprintf("reply %d: operation %d.%d returned", i, mj[0], mj[1]), func() bool {
 				if sp.isQueueMsg(i) && !logged(i) {
@@ -899,6 +1127,11 @@ func runC11X(sp c11XSpec) (string, bool) {
 				return st.ret[mj] && progress(mj[0], mj[1]+1)()
 			})
 		}
+		stalled = hang && i < k
+	}
+	if stalled {
+		// until the connection is quiescent again (the wait ends on the quiescence witness)
+		wait("rest of the script handed to the stalled connection", func() bool { return false })
 	}
 	if !hang {
 		// one more message through the same path: the connection still processes what arrives
@@ -990,7 +1223,7 @@ func runC11X(sp c11XSpec) (string, bool) {
 					r = k + 5
 				}
 				switch o.kind {
-				case 'N':
+				case 'N', 'S':
 					hs = append(hs, fmt.Sprintf("HNested %d", r))
 				case 'C':
 					hs = append(hs, fmt.Sprintf("HAck %d", r), fmt.Sprintf("HNested %d", r))
@@ -1016,7 +1249,9 @@ func c11XTyp(sp c11XSpec, i int, typs []int) int {
 	switch it := sp.items[i-1]; it.kind {
 	case 'Q':
 		return 0
-	case 'q', 'r', 's':
+	case 'O':
+		return 0
+	case 'q', 'r', 's', 'o', 'n':
 		return 1
 	case 'a':
 		return 2
@@ -1093,6 +1328,37 @@ var c11XFixed = []c11XFixedScript{
 	{"D", 65535, "q:P4 q:P5 Q@2 p p"},
 	{"D", 1000, "q:C3 q@1 a q"},
 	{"D", 1000, "q:C3 Q@1 a"},
+	// observe callbacks that issue blocking requests: further notifications of the SAME observation, notifications of
+	// another observation and requests of the peer arrive before the awaited reply; the callback of a later
+	// notification blocks as well (two callbacks of one observation in progress at once)
+	{"TD", -1, "o:N3 o r"},
+	{"TD", -1, "o:N2 r o q"},
+	{"TD", -1, "o:N5 o o q r o"},
+	{"TD", -1, "o:N4 o:N3 r r o"},
+	{"TD", -1, "o:N3 o:N4 r r"},
+	{"TD", -1, "o:N3N4 o r r q"},
+	{"TD", -1, "q:N3 o r o"},
+	{"TD", -1, "o:N3 q r"},
+	{"TD", -1, "o:P3 o p q"},
+	{"TD", -1, "o:Nx o q o"},
+	{"TD", -1, "o:N3 o2 r o2:N5 r"},
+	{"TD", -1, "o:N4 o2:N6 o r o2 r"},
+	{"TD", -1, "o o2 o q"},
+	// a handler / an observe callback registers an observation of its own (Conn.DoObserve blocks until the
+	// registration response has been dispatched)
+	{"TD", -1, "q:S2 n q"},
+	{"TD", -1, "q:S3 q n q"},
+	{"TD", -1, "o:S3 o n"},
+	{"TD", -1, "q:S2N3 n r"},
+	{"TD", -1, "q:N4 q:S3 n r"},
+	{"TD", -1, "q:Sx q q"},
+	// udp: confirmable notifications, confirmable nested requests from a callback, a retransmitted notification
+	// whose callback is blocked
+	{"D", -1, "O:N3 O r q"},
+	{"D", -1, "O:C3 o a o"},
+	{"D", -1, "o:C2C4 a o a"},
+	{"D", -1, "O:N4 d1 o r q"},
+	{"D", -1, "o:N3 d1 r o"},
 }
 
 // a ping whose pong stands behind more messages than the queue holds
@@ -1112,13 +1378,17 @@ func c11XRandom(rng *Rng, maxLen int) c11XSpec {
 	if sp.layer == 'D' && rng.Chance(50) {
 		sp.ctr = []int{0, 1000, 16383, 32767, 32768, 49152, 65534, 65535}[rng.Intn(8)]
 	}
+	nobs := 0 // observations of the script: notifications take the place of some requests
+	if rng.Chance(40) {
+		nobs = 1 + rng.Intn(2)
+	}
 	offs := []int{0, 1, 2, 3, 5, 16382, 16383, 16384, 32767, 32768, 32769, 65535}
 	usedOff := map[int]bool{}
 	type pend struct{ m, j int }
 	var out []pend
 	blocked := 0
 	target := 3 + rng.Intn(maxLen-2)
-	replyKind := map[byte]byte{'N': 'r', 'C': 'a', 'P': 'p'}
+	replyKind := map[byte]byte{'N': 'r', 'C': 'a', 'P': 'p', 'S': 'n'}
 	items := &sp.items
 	respond := func() {
 		idx := rng.Intn(len(out))
@@ -1137,7 +1407,12 @@ func c11XRandom(rng *Rng, maxLen int) c11XSpec {
 	}
 	newReq := func(withOps bool) c11XItem {
 		it := c11XItem{kind: 'q'}
-		if sp.layer == 'D' {
+		if nobs > 0 && rng.Chance(60) {
+			it.kind, it.ref = 'o', 1+rng.Intn(nobs)
+			if sp.layer == 'D' && rng.Chance(30) {
+				it.kind = 'O'
+			}
+		} else if sp.layer == 'D' {
 			if rng.Chance(45) {
 				it.kind = 'Q'
 			}
@@ -1152,9 +1427,9 @@ func c11XRandom(rng *Rng, maxLen int) c11XSpec {
 		if withOps {
 			nops := 1 + rng.Intn(2)
 			for j := 0; j < nops; j++ {
-				kinds := "NP"
+				kinds := "NNPPS"
 				if sp.layer == 'D' {
-					kinds = "NCCP"
+					kinds = "NNCCCCPPS"
 				}
 				it.ops = append(it.ops, c11XOp{kind: kinds[rng.Intn(len(kinds))]})
 			}
@@ -1173,7 +1448,7 @@ func c11XRandom(rng *Rng, maxLen int) c11XSpec {
 			// a copy of some earlier request
 			var reqs []int
 			for i, it := range *items {
-				if it.kind == 'q' || it.kind == 'Q' {
+				if strings.ContainsRune("qQoO", rune(it.kind)) {
 					reqs = append(reqs, i+1)
 				}
 			}
@@ -1227,6 +1502,10 @@ func c11XEmit(e *Emitter, sp c11XSpec, tag string) bool {
 		if it.hasOff {
 			kinds["x-placed-mid"] = true
 		}
+		if it.kind == 'o' || it.kind == 'O' {
+			kinds["x-notification"] = true
+			nontriv = true
+		}
 	}
 	hist := []string{"x-" + tag, fmt.Sprintf("x-%c", sp.layer), fmt.Sprintf("queue%d", sp.n)}
 	for kd := range kinds {
@@ -1269,7 +1548,7 @@ func c11XCases(e *Emitter, rng *Rng, thorough bool) {
 		}
 		run(c11XRandom(rng, maxLen), "rand")
 	}
-	e.Extra["x_scripts"] = fmt.Sprintf("%d scripts (%d fixed: confirmable nested requests with piggybacked ACK, placed message IDs incl. both 16-bit wraps, retransmitted copies, pings by handlers on tcp and udp, queue 0/1/16; %d random), scripts that did not run to their end %d (of these on the quiescence witness %d, the others on the watchdog), set aside because Do refused a drawn message ID still in use %d, %.2fs", count, fixed, nrand, hangs, c11XStalls, c11XRefused, time.Since(t0).Seconds())
+	e.Extra["x_scripts"] = fmt.Sprintf("%d scripts (%d fixed: confirmable nested requests with piggybacked ACK, placed message IDs incl. both 16-bit wraps, retransmitted copies, pings by handlers on tcp and udp, observe callbacks issuing blocking requests while further notifications arrive, observations registered by handlers / callbacks, queue 0/1/16; %d random), scripts that did not run to their end %d (of these on the quiescence witness %d, the others on the watchdog), set aside because Do refused a drawn message ID still in use %d, %.2fs", count, fixed, nrand, hangs, c11XStalls, c11XRefused, time.Since(t0).Seconds())
 }
 
 func c11XOnly(e *Emitter, only string) {
